@@ -13,8 +13,11 @@ import time
 
 HERE = os.path.dirname(os.path.dirname(os.path.abspath(__file__)))
 pat = sys.argv[1] if len(sys.argv) > 1 else "*"
-rows = []
-for diff in sorted(glob.glob(os.path.join(HERE, "mutants", pat + ".diff"))):
+JOBS = int(os.environ.get("SWEEP_JOBS", "3"))
+
+
+def one(diff):
+    rows = []
     name = os.path.basename(diff)[:-5]
     prop = "C" + re.match(r"c(\d+)_", name).group(1)
     d = tempfile.mkdtemp(prefix="mut.", dir="/dev/shm")
@@ -22,10 +25,10 @@ for diff in sorted(glob.glob(os.path.join(HERE, "mutants", pat + ".diff"))):
         os.makedirs(d + "/repo")
         for x in ("src", "tests"):
             shutil.copytree("/repo/" + x, d + "/repo/" + x)
+        shutil.copy("/repo/pyproject.toml", d + "/repo/pyproject.toml")
         r = subprocess.run(["patch", "-p1", "-s", "-i", diff], cwd=d + "/repo", capture_output=True, text=True)
         if r.returncode:
-            rows.append((name, prop, "patch failed", "-", "-"))
-            continue
+            return (name, prop, "patch failed", "-", "-")
         env = dict(os.environ, PYTHONPATH=d + "/repo/src")
         try:
             t = subprocess.run(["/venv/bin/python", "-m", "pytest", "-q", "-x", "-p", "no:cacheprovider", "tests"],
@@ -45,8 +48,15 @@ for diff in sorted(glob.glob(os.path.join(HERE, "mutants", pat + ".diff"))):
             verdict, first = "TIMEOUT", ""
         rows.append((name, prop, tests, verdict, f"{time.time() - t0:.0f}s {first}"))
         print(rows[-1], flush=True)
+        return rows[-1]
     finally:
         shutil.rmtree(d, ignore_errors=True)
+
+
+import concurrent.futures as cf
+
+with cf.ThreadPoolExecutor(JOBS) as ex:
+    rows = list(ex.map(one, sorted(glob.glob(os.path.join(HERE, "mutants", pat + ".diff")))))
 with open(os.path.join(HERE, "mutants", "RESULTS.md"), "w") as f:
     f.write("| mutant | property | repo tests | quick check | time / first message |\n|---|---|---|---|---|\n")
     for r in rows:
